@@ -66,11 +66,11 @@ type Universe struct {
 	Senders []string
 	Addrs   []common.Address
 
-	tmpl  []types.Transaction
-	Hash  []common.Hash // per transaction
-	HID   []int         // transaction index -> distinct-hash id
-	HHash []common.Hash // distinct-hash id -> hash
-	Absent common.Hash  // a hash no transaction of the universe has
+	tmpl   []types.Transaction
+	Hash   []common.Hash // per transaction
+	HID    []int         // transaction index -> distinct-hash id
+	HHash  []common.Hash // distinct-hash id -> hash
+	Absent common.Hash   // a hash no transaction of the universe has
 	hidOf  map[common.Hash]int
 }
 
